@@ -1,9 +1,10 @@
 /-
 C18 — path and string utilities (dune/common/path.cc, path.hh, stringutility.hh).
 
-Strings are `List Char` (`Str`, defined in Model/C18/Str.lean together with `hasPrefix`/`hasSuffix`).
+Strings are `List Char` (`Str`, defined in Model/C18/Str.lean together with `equalRange` = std::equal).
 `bufferSize`, `pathIndicatesDirectory`, `concatPaths`, both overloads of `prettyPath` (`prettyPathWith`,
-`prettyPathAutoWith`) and the control skeleton of `formatString` (`fmtFitsStack`, `fmtDynamicSize`) are REGENERATED
+`prettyPathAutoWith`), `hasPrefix`, `hasSuffix` and the control skeleton of `formatString` (`fmtFitsStack`,
+`fmtDynamicSize`) are REGENERATED
 from the source on every run (Gen/C18.lean, tools/translators/tr_c18.py).  Two levels (DESIGN.md 3.2):
 
 * **faithful, character level** — `processPathC` transcribes `Dune::processPath` pass by pass
